@@ -54,6 +54,30 @@ Theorem inline_leaves_by_name :
 Proof. exact call_stays_by_name. Qed.
 Print Assumptions inline_leaves_by_name.
 
+(* Which captured callables are [not_inlinable].  The snapshot holds [CFun None] for a callable whose source is not a
+   single-return function or lambda (source recovery, C03), for a helper that is being expanded (recursion), and -
+   decided on the live object by _rewrite_captured_vars.visit_Name.safe_parse_wrapper, hence an INPUT of the model that
+   the harness computes the same way -
+     F34  for a bound method (inspect.ismethod): `m = k.scale` - the source text `def scale(self, a)` is not the
+          callable, the object it is bound to would be lost;
+     F35  for a callable that has __wrapped__ (functools.wraps, lru_cache ...): inspect finds the source of the
+          undecorated function, inlining it would drop what the decorator does.
+   F36 is decided by the model itself: a helper whose lambda contains an assignment expression ([has_walrus]; a NamedExpr
+   node anywhere, default values included) is [CFun None] too - substituting an argument for a name that is assigned to
+   is wrong (`(e.a := e.a + 1) * 2`).  By [inline_leaves_by_name] all their calls stay calls by name, arguments resolved. *)
+Theorem inline_walrus_helper_not_inlinable :
+  forall hce l, has_walrus l = true -> helper_capval hce l = CFun None.
+Proof. exact helper_with_walrus_by_name. Qed.
+Print Assumptions inline_walrus_helper_not_inlinable.
+
+Theorem inline_leaves_walrus_helper_by_name :
+  forall ce hce l h args kwn kwv e',
+    lookup_var ce h = Some (helper_capval hce l) -> has_walrus l = true ->
+    parse_callable ce (Call (Name h) args kwn kwv) = Ok e' ->
+    exists args' kwv', e' = Call (Name h) args' kwn kwv' /\ length args' = length args /\ length kwv' = length kwv.
+Proof. exact walrus_helper_call_stays_by_name. Qed.
+Print Assumptions inline_leaves_walrus_helper_by_name.
+
 (* --- F30: a starred argument is not one positional argument ---
    A called lambda (a helper's, or one written in the query) with a starred argument is left as a call - whatever the
    number of arguments - its parts resolved as generic_visit does, the starred arguments still starred. *)
@@ -402,3 +426,49 @@ Proof.
          ["k"], [Attr (Name "s") "off"].
   repeat split; vm_compute; reflexivity.
 Qed.
+
+(* ---------- F34, F35, F36: callables that are left by name ---------- *)
+Definition walrus (x : string) (v : expr) : expr := Other "NamedExpr;target=n;value=n" [] [Name x; v].
+
+(* F36: def w(a): return (a := a + 1) * 2 ; the query  lambda e: w(e.a) + h(e.a)  keeps w by name, inlines h *)
+Example walrus_helper_left_by_name :
+  let w := Lambda ["a"] (BinOp BMult (walrus "a" (BinOp BAdd (Name "a") (Const (CInt 1)))) (Const (CInt 2))) in
+  let h := Lambda ["a"] (BinOp BAdd (Name "a") (Const (CInt 1))) in
+  has_walrus w = true /\ has_walrus h = false /\
+  helper_capval (glob []) w = CFun None /\
+  parse_callable (glob [("w", helper_capval (glob []) w); ("h", helper_capval (glob []) h)])
+    (Lambda ["e"] (BinOp BAdd (Call (Name "w") [Attr (Name "e") "a"] [] []) (Call (Name "h") [Attr (Name "e") "a"] [] [])))
+  = Ok (Lambda ["e"] (BinOp BAdd (Call (Name "w") [Attr (Name "e") "a"] [] []) (BinOp BAdd (Attr (Name "e") "a") (Const (CInt 1))))) /\
+  (* a walrus hidden in a default value, or in a nested lambda of the helper, counts as well *)
+  has_walrus (Lambda ["a"] (lam_j_k (walrus "y" (Name "a")) (Name "j"))) = true /\
+  has_walrus (Lambda ["s"] (Call (Attr (Name "s") "Select") [Lambda ["j"] (walrus "y" (Name "j"))] [] [])) = true.
+Proof. repeat split; vm_compute; reflexivity. Qed.
+
+(* before 8bb334c the helper was inlined: the parameter is replaced inside the assignment target, `(e.a := e.a + 1) * 2` -
+   an Attribute as target of a NamedExpr, which python refuses to compile *)
+Example walrus_helper_inlined_pinned_refuted :
+  exists w arg,
+    has_walrus w = true /\
+    (match rewrite_captured (glob []) w with Ok w' => res [] (Call w' [arg] [] []) | Err _ => Name "" end)
+    = BinOp BMult (Other "NamedExpr;target=n;value=n" [] [Attr (Name "e") "a"; BinOp BAdd (Attr (Name "e") "a") (Const (CInt 1))])
+                  (Const (CInt 2)).
+Proof.
+  exists (Lambda ["a"] (BinOp BMult (walrus "a" (BinOp BAdd (Name "a") (Const (CInt 1)))) (Const (CInt 2)))), (Attr (Name "e") "a").
+  split; vm_compute; reflexivity.
+Qed.
+
+(* F34 / F35: a bound method `m = k.scale`, a functools.wraps-decorated `hw` - [CFun None] in the snapshot (the harness
+   computes inspect.ismethod / hasattr(_, "__wrapped__") on the live object as the code does): the hypotheses of
+   inline_leaves_by_name hold, the calls stay, top level and inside a nested lambda, arguments still resolved *)
+Example method_and_decorated_left_by_name :
+  let ce := glob [("m", CFun None); ("hw", CFun None); ("h", helper_capval (glob []) (Lambda ["a"] (BinOp BAdd (Name "a") (Const (CInt 1)))))] in
+  not_inlinable ce "m" /\ not_inlinable ce "hw" /\
+  parse_callable ce (Call (Name "m") [Call (Name "h") [Attr (Name "e") "a"] [] []] [] [])
+  = Ok (Call (Name "m") [BinOp BAdd (Attr (Name "e") "a") (Const (CInt 1))] [] []) /\
+  parse_callable ce (Lambda ["e"] (Call (Attr (Attr (Name "e") "jets") "Select")
+                                         [Lambda ["j"] (BinOp BAdd (Call (Name "m") [Attr (Name "j") "pt"] [] [])
+                                                                   (Call (Name "hw") [Attr (Name "j") "pt"] [] []))] [] []))
+  = Ok (Lambda ["e"] (Call (Attr (Attr (Name "e") "jets") "Select")
+                           [Lambda ["j"] (BinOp BAdd (Call (Name "m") [Attr (Name "j") "pt"] [] [])
+                                                     (Call (Name "hw") [Attr (Name "j") "pt"] [] []))] [] [])).
+Proof. split; [left; reflexivity | split; [left; reflexivity | split; vm_compute; reflexivity]]. Qed.
